@@ -34,15 +34,6 @@ def run(ctx):
             ctx.check(used_after_check(lp, takes_share), "LOOPDOM", p3.key, "accepted-before-used",
                       "a round-two share is used before / without its acceptance check", p3.loc)
         # sender sets coincide
-        anyf = lambda fa: (None if not (fa[0] == "cond" and fa[1] == "any" and is_call(fa[2], name="keys") and fa[2][2][0] == ("arg", 2)
-                                        and fa[3][0] == "closure" and ("arg", 3) in fa[3][2]) else ("fail" if fa[4] else "pass"))
-        refusal(ctx, p3, "SEP", "round1-senders-subset-of-round2-senders", [("any(!contains)", anyf)], ok_sinks(p3))
-        vsize = cmp_fact("eq", length(arg(2)), length(arg(3)), False)
-        getok = lambda item: succ_fact(lambda t: t[0] == "ok_or" and call("get", arg(2), tfield(item, 0))(t[1]))
-        size_ok = not sep(p3, {e for (e, fa) in v.facts if vsize(fa) == "pass"}, ok_sinks(p3))
-        if size_ok:
-            ctx.ok("SEP", p3.key, "round2-senders-subset-of-round1-senders", {"mechanism": "size equality"})
-        else:
-            forall_loop(ctx, p3, "LOOPDOM", "round2-senders-subset-of-round1-senders", lambda s: s == ("arg", 3),
-                        [("get(l).ok_or", getok)], require_fail_err=False)
+        from .c08 import senders_coincide
+        senders_coincide(ctx, p3, "round1-senders-subset-of-round2-senders", "round2-senders-subset-of-round1-senders")
     c07.part3_wiring(ctx)
